@@ -191,6 +191,7 @@ func TestSim(t *testing.T) {
 		res.Steps = d.Step
 		res.FakeMs = time.Since(d.Start).Milliseconds()
 		res.Kernel = k.Stats
+		d.Counters["aux_dials"] = int(atomic.LoadInt64(&d.auxDials))
 		res.Counters = d.Counters
 		for s := range d.States {
 			res.States = append(res.States, s)
